@@ -30,7 +30,7 @@ theorem edgePeriod_orders (olt slt : Nat) (q oh : Rat) (sp tp rp : Bool) (e : Ed
   have hio : (edgePeriod olt slt q oh sp tp rp e).1.io = (addAt e.iopl olt q).headD 0 := by
     simp only [edgePeriod]; rw [(r1 _).2.1]; simp only; rw [f3h]; simp [recvOrderEdge, placeOrderEdge]
   have hoq1 : (edgePeriod olt slt q oh sp tp rp e).1.oq = q := by
-    simp only [edgePeriod]; rw [(r1 _).2.2]; simp only; rw [f3e]; simp [recvOrderEdge, placeOrderEdge, hoq]
+    simp only [edgePeriod]; rw [(r1 _).2.2]; simp only; rw [f3e]; simp [recvOrderEdge, placeOrderEdge, hoq]; try grind
   have hget : ∀ k, (addAt e.iopl olt q).getD k 0 = e.iopl.getD k 0 + (if k = olt then q else 0) := by
     intro k
     simp only [addAt, List.getD_eq_getElem?_getD, List.getElem?_modify]
@@ -40,7 +40,7 @@ theorem edgePeriod_orders (olt slt : Nat) (q oh : Rat) (sp tp rp : Bool) (e : Ed
       simp [List.getElem?_eq_getElem this]
     · have : ¬ olt = k := fun h => hk h.symm
       simp [this, hk]
-      cases e.iopl[k]? <;> simp
+      cases e.iopl[k]? <;> simp <;> grind
   refine ⟨hoq1, by simp [edgePeriod, nextEdge], ?_, ?_, ?_, ?_⟩
   · rw [hio]
     have := hget 0
